@@ -84,3 +84,31 @@ reg('C03', module='c03', level='exploration',
              'thorough': {'rejections_observed': 50000,
                           'acceptances_observed': 2000,
                           'nodes_typed_by_create_node_monitor': 100000}})
+
+reg('C04', module='c04', level='exploration',
+    technique=('runtime monitoring: shadow hash-consing table on '
+               'create_node, accessor read-back vs blueprint, quiescent walks '
+               'of the manager tables, cross-environment copy checks'),
+    rule=('sets of ~300 blueprints (systematic, random, unnormalised '
+          'variants, duplicates) built in 4-8 random orders in fresh '
+          'environments with unrelated constructions interleaved; every '
+          'numeric spelling of constants; random array values; random '
+          'multi-source normalize() plans; distinct = (workload, case key)'),
+    level_text=('object identity is compared with an independently computed '
+                'structural key for every pair built, accessors are read '
+                'back into blueprints and compared with the documented '
+                'normal form, manager tables are walked at quiescent points. '
+                'Held on the constructions observed.'),
+    level_note=('trusts Python object identity and vf/c04.norm (the list of '
+                'documented constructor normalisations)'),
+    assumptions=['order of array-value assignments is not observable '
+                 'structure (compared as a map)'],
+    require={'quick': {'identity_checks': 5000, 'accessor_checks': 5000,
+                       'spelling_checks': 300, 'normalize_checks': 200,
+                       'array_value_get_checks': 2000,
+                       'table_entries_walked': 10000},
+             'thorough': {'identity_checks': 100000,
+                          'accessor_checks': 100000, 'spelling_checks': 300,
+                          'normalize_checks': 5000,
+                          'array_value_get_checks': 50000,
+                          'table_entries_walked': 100000}})
